@@ -209,4 +209,116 @@ theorem vinv_run (tbl : Fields) (hv : FxVerif.Gen.C06.observedHeightFromVoter = 
 theorem vinv_init (tbl : Fields) (b : State) (powers : List Nat) (total : Nat) : VInv tbl (vinit b powers total) :=
   ⟨fun a ha => by simp [vinit] at ha, fun e he => by simp [vinit] at he⟩
 
+/-! ## an oracle votes at most once per event nonce: the votes of an attestation are distinct oracles -/
+
+theorem getD_set_eq (l : List Nat) (i v : Nat) (h : i < l.length) : (l.set i v).getD i 0 = v := by
+  simp [List.getD_eq_getElem?_getD, h]
+
+theorem getD_set_ne (l : List Nat) (i j v : Nat) (h : i ≠ j) : (l.set i v).getD j 0 = l.getD j 0 := by
+  simp [List.getD_eq_getElem?_getD, h]
+
+structure VDist (s : VState) : Prop where
+  len : s.last.length = s.powers.length
+  atts : ∀ a ∈ s.atts, a.votes.Nodup ∧ ∀ o ∈ a.votes, a.nonce ≤ s.last.getD o 0
+  obs : ∀ e ∈ s.obsLog, e.voters.Nodup
+
+theorem findAtt_mem (tbl : Fields) (s : VState) (n h : Nat) (ev : Ev) :
+    (findAtt tbl s n h ev).nonce = n ∧ ((findAtt tbl s n h ev) ∈ s.atts ∨ (findAtt tbl s n h ev).votes = []) := by
+  unfold findAtt
+  cases hf : s.atts.find? (fun a => a.nonce = n ∧ a.key = claimKey tbl h ev) with
+  | none => exact ⟨rfl, Or.inr rfl⟩
+  | some a =>
+    have hp := find?_some hf
+    have hp' : a.nonce = n ∧ a.key = claimKey tbl h ev := by simpa using hp
+    exact ⟨hp'.1, Or.inl (mem_of_find?_eq_some hf)⟩
+
+theorem vdist_vote (tbl : Fields) (s : VState) (o n h : Nat) (ev : Ev) (D : VDist s) :
+    VDist (voteCore tbl s o n h ev).1 := by
+  unfold voteCore
+  split
+  · exact D
+  rename_i ho
+  split
+  · exact D
+  rename_i hn
+  have hlt : o < s.last.length := by rw [D.len]; omega
+  have hn' : n = s.last.getD o 0 + 1 := by omega
+  obtain ⟨hnonce, hmem⟩ := findAtt_mem tbl s n h ev
+  generalize findAtt tbl s n h ev = att0 at hnonce hmem
+  -- the oracle has not voted in this attestation yet
+  have hfresh : o ∉ att0.votes := by
+    intro hin
+    rcases hmem with hm | hm
+    · have := (D.atts att0 hm).2 o hin
+      omega
+    · rw [hm] at hin; cases hin
+  have hbound0 : ∀ o' ∈ att0.votes, n ≤ s.last.getD o' 0 := by
+    intro o' ho'
+    rcases hmem with hm | hm
+    · have := (D.atts att0 hm).2 o' ho'
+      omega
+    · rw [hm] at ho'; cases ho'
+  have hnodup0 : att0.votes.Nodup := by
+    rcases hmem with hm | hm
+    · exact (D.atts att0 hm).1
+    · rw [hm]; exact List.nodup_nil
+  have hnodup : (att0.votes ++ [o]).Nodup := by
+    rw [List.nodup_append]
+    refine ⟨hnodup0, by simp, ?_⟩
+    intro a ha b hb
+    have : b = o := by simpa using hb
+    subst this
+    intro hab; subst hab; exact hfresh ha
+  have hattsNew : ∀ obsd : Bool, ∀ a ∈ setAtt s.atts { addVote att0 o with observed := obsd },
+      a.votes.Nodup ∧ ∀ o' ∈ a.votes, a.nonce ≤ (s.last.set o n).getD o' 0 := by
+    intro obsd a ha
+    rcases mem_setAtt _ _ _ ha with ha | ha
+    · refine ⟨(D.atts a ha).1, ?_⟩
+      intro o' ho'
+      have hb := (D.atts a ha).2 o' ho'
+      by_cases he : o = o'
+      · subst he; rw [getD_set_eq _ _ _ hlt]; omega
+      · rw [getD_set_ne _ _ _ _ he]; exact hb
+    · subst ha
+      refine ⟨hnodup, ?_⟩
+      intro o' ho'
+      show att0.nonce ≤ _
+      rw [hnonce]
+      have ho'' : o' ∈ att0.votes ++ [o] := ho'
+      rw [mem_append] at ho''
+      by_cases he : o = o'
+      · subst he; rw [getD_set_eq _ _ _ hlt]; exact Nat.le_refl _
+      · rw [getD_set_ne _ _ _ _ he]
+        rcases ho'' with h1 | h1
+        · exact hbound0 o' h1
+        · exact absurd (by simpa using h1 : o' = o).symm he
+  have hlen : (s.last.set o n).length = s.powers.length := by simp [D.len]
+  simp only
+  split
+  · unfold observeBy
+    simp only
+    split
+    · exact ⟨D.len, D.atts, D.obs⟩
+    · refine ⟨hlen, hattsNew true, ?_⟩
+      intro e he
+      have he' : e ∈ s.obsLog ∨ e = ⟨n, hObsOf h, ev, (addVote att0 o).votes⟩ := by
+        have : e ∈ s.obsLog ++ [⟨n, hObsOf h, ev, (addVote att0 o).votes⟩] := he
+        simpa using this
+      rcases he' with he' | he'
+      · exact D.obs e he'
+      · subst he'; exact hnodup
+  · exact ⟨hlen, hattsNew att0.observed, D.obs⟩
+
+theorem vdist_run (tbl : Fields) (ops : List VOp) (s : VState) (D : VDist s) : VDist (vrunWith tbl s ops) := by
+  induction ops generalizing s with
+  | nil => exact D
+  | cons op r ih =>
+    apply ih
+    cases op with
+    | base b => exact ⟨D.len, D.atts, D.obs⟩
+    | vote o n h ev => exact vdist_vote tbl s o n h ev D
+
+theorem vdist_init (b : State) (powers : List Nat) (total : Nat) : VDist (vinit b powers total) :=
+  ⟨by simp [vinit], fun a ha => by simp [vinit] at ha, fun e he => by simp [vinit] at he⟩
+
 end FxVerif.Proofs.C06Vote
